@@ -111,6 +111,35 @@ class WRegion:
             stack.pop()
 
 
+def _liveness(hier: Hier) -> Dict[str, frozenset]:
+    """May-liveness of control variables at the entry of every leaf block of the flattened hierarchy (backward data flow over
+    the by-name successor relation, back edges included).  Over-approximating the live set only costs states."""
+    leaves = hier.leaves()
+    succ, use, define = {}, {}, {}
+    for name, b in leaves.items():
+        ss = []
+        for t in b._jump_targets:
+            r = hier.resolve_flat(t)
+            if r is not None:
+                ss.append(r)
+        succ[name] = ss
+        use[name] = {b.variable} if isinstance(b, SyntheticBranch) else set()
+        define[name] = set(b.variable_assignment) if isinstance(b, SyntheticAssignment) else set()
+    live = {n: set(use[n]) for n in leaves}
+    changed = True
+    while changed:
+        changed = False
+        for n in leaves:
+            out = set()
+            for s in succ[n]:
+                out |= live.get(s, set())
+            new = use[n] | (out - define[n])
+            if new != live[n]:
+                live[n] = new
+                changed = True
+    return {n: frozenset(v) for n, v in live.items()}
+
+
 def make_walker(kind: str, hier: Hier):
     return WName(hier) if kind == "name" else WRegion(hier)
 
@@ -137,6 +166,16 @@ def product(G: Dict[str, Tuple[str, ...]], entry: str, hier: Hier, kind: str,
     res = ProductResult()
     W = make_walker(kind, hier)
     nleaves = max(1, len(hier.flat))
+    live = _liveness(hier)
+
+    def project(name, env, mon):
+        """Forget control variables that are dead at original block ``name``: no path from here reads them before they are
+        assigned again, so two states that differ only in them have the same futures (without this, k sequential loops with
+        two exits each give 2^k valuations)."""
+        lv = live.get(name)
+        if lv is None or len(env) == len(lv) and all(v in lv for v in env):
+            return env, mon
+        return {v: x for v, x in env.items() if v in lv}, frozenset(t for t in mon if t[1] in lv)
 
     def viol(clause, detail, path):
         if len(res.violations) < max_violations:
@@ -250,6 +289,7 @@ def product(G: Dict[str, Tuple[str, ...]], entry: str, hier: Hier, kind: str,
             if o2 != want:
                 viol("path/successor", f"successor {i} of {b!r} leads to {o2!r}; the original goes to {want!r}", step)
                 continue
+            e2, m2 = project(o2, e2, m2)
             nxt = (o2, p2, e2, m2)
             k = skey(nxt)
             if k not in seen:
